@@ -269,8 +269,8 @@ def model_range(spec: str, size: int):
     a, b = m.group(1), m.group(2)
     if a == "":
         n = int(b)
-        if n == 0:
-            return ("either",)  # documented deviation: suffix length 0
+        if n == 0 or size == 0:  # RFC 9110 14.1.2: only a suffix range of non-zero length is satisfiable
+            return ("416",)
         if size == 0:
             return ("416",)
         return ("206", max(0, size - n), size - 1)
@@ -281,6 +281,22 @@ def model_range(spec: str, size: int):
         return ("416",)
     e = size - 1 if b == "" else min(int(b), size - 1)
     return ("206", a, e)
+
+
+def http_date(ts: float, fmt: str) -> str:
+    """The three HTTP-date spellings a server must accept (RFC 9110 5.6.7): IMF-fixdate, RFC 850, asctime()."""
+    import time
+    tm = time.gmtime(int(ts))
+    if fmt == "imf":
+        return formatdate(int(ts), usegmt=True)
+    day = ["Mon", "Tue", "Wed", "Thu", "Fri", "Sat", "Sun"][tm.tm_wday]
+    long_day = ["Monday", "Tuesday", "Wednesday", "Thursday", "Friday", "Saturday", "Sunday"][tm.tm_wday]
+    mon = ["Jan", "Feb", "Mar", "Apr", "May", "Jun", "Jul", "Aug", "Sep", "Oct", "Nov", "Dec"][tm.tm_mon - 1]
+    if fmt == "rfc850":
+        return f"{long_day}, {tm.tm_mday:02d}-{mon}-{tm.tm_year % 100:02d} {tm.tm_hour:02d}:{tm.tm_min:02d}:{tm.tm_sec:02d} GMT"
+    if fmt == "asctime":
+        return f"{day} {mon} {tm.tm_mday:2d} {tm.tm_hour:02d}:{tm.tm_min:02d}:{tm.tm_sec:02d} {tm.tm_year}"
+    raise AssertionError(fmt)
 
 
 def check_range(rec: Rec, case: dict) -> None:
@@ -294,8 +310,8 @@ def check_range(rec: Rec, case: dict) -> None:
     st_ = os.stat(path)
     etag = f'"{st_.st_mtime_ns:x}-{st_.st_size:x}"'
     cond = case.get("cond")
-    date_old = formatdate(st_.st_mtime - 1000, usegmt=True)
-    date_new = formatdate(st_.st_mtime + 1000, usegmt=True)
+    date_old = http_date(st_.st_mtime - 1000, case.get("datefmt", "imf"))
+    date_new = http_date(st_.st_mtime + 1000, case.get("datefmt", "imf"))
     expect_cond = None
     atoms = cond.split("+") if cond else []
     have = {}
@@ -310,6 +326,10 @@ def check_range(rec: Rec, case: dict) -> None:
             hdrs.append(("If-Range", '"zzz"')); have["if-range"] = "stale"
         elif atom == "if-range-etag-weak":
             hdrs.append(("If-Range", "W/" + etag)); have["if-range"] = "stale"  # If-Range needs a strong match (RFC 9110 13.1.5)
+        elif atom == "if-range-garbage":
+            hdrs.append(("If-Range", "garbage")); have["if-range"] = "stale"  # no validator at all: cannot match (RFC 9110 13.1.5)
+        elif atom == "if-range-unquoted":
+            hdrs.append(("If-Range", etag.strip('"'))); have["if-range"] = "stale"  # not an entity-tag, not a date
         elif atom == "if-none-match-star":
             hdrs.append(("If-None-Match", "*")); have["inm"] = True
         elif atom == "if-none-match-weak-same":
@@ -440,17 +460,24 @@ def unit_ranges(rec: Rec, size: int, shard: int, nshards: int, conds: list) -> N
         grid += [f"bytes={size - 1}-", f"bytes={size}-", f"bytes={size - 1}-{size + 5}", f"bytes=-{size}", f"bytes=-{size + 1}", f"bytes=4096-4097", "bytes=0-8192", "bytes=8192-8192",
                  "bytes=8193-8193"]
     i = -1
-    for spec in grid:
+    for si, spec in enumerate(grid):
         for method in ("GET", "HEAD"):
             for cond in conds:
                 i += 1
                 if i % nshards != shard:
                     continue
-                case = {"size": size, "range": spec, "method": method, "cond": cond}
-                try:
-                    check_range(rec, case)
-                except Violation as v:
-                    rec.fail(v.key, v.msg, case)
+                dated = cond is not None and ("since" in cond or "if-range-old" in cond or "if-range-new" in cond)
+                # the obsolete date spellings on every fifth spec (and on the plain request): the answer may not
+                # depend on how the date is written
+                fmts = ("imf", "rfc850", "asctime") if dated and (spec is None or si % 5 == 0) else ("imf",)
+                for fmt in fmts:
+                    case = {"size": size, "range": spec, "method": method, "cond": cond}
+                    if fmt != "imf":
+                        case["datefmt"] = fmt
+                    try:
+                        check_range(rec, case)
+                    except Violation as v:
+                        rec.fail(v.key, v.msg, case)
     rec.exhaustive = True
 
 
@@ -458,7 +485,7 @@ COMBOS = ["if-none-match-other+if-modified-since-new", "if-none-match-same+if-mo
           "if-match-other+if-none-match-same", "if-unmodified-since-new+if-modified-since-new", "if-match-same+if-none-match-same",
           "if-none-match-other+if-modified-since-new+if-range-old", "if-unmodified-since-old+if-none-match-same"]
 CONDS = [None, "if-range-old", "if-range-new", "if-none-match-same", "if-none-match-other", "if-match-other", "if-match-same", "if-modified-since-new", "if-modified-since-old",
-         "if-unmodified-since-old", "if-unmodified-since-new", "if-range-etag-same", "if-range-etag-other", "if-range-etag-weak", "if-none-match-star",
+         "if-unmodified-since-old", "if-unmodified-since-new", "if-range-etag-same", "if-range-etag-other", "if-range-etag-weak", "if-range-garbage", "if-range-unquoted", "if-none-match-star",
          "if-none-match-weak-same", "if-none-match-list", "if-match-star", "if-match-weak-same", "if-match-list"] + COMBOS
 
 
